@@ -27,7 +27,10 @@ class Model(object):
   ordered pairs present in the density dictionaries (API route: all).  dip/quad:
   like pairs, for ADP."""
 
-  def __init__(self, elements, pairs, fs=False, dip=None, quad=None, pair_list_rotation=0):
+  def __init__(self, elements, pairs, fs=False, dip=None, quad=None, pair_list_rotation=0, surplus=None):
+    # surplus: pair potentials handed to the writer that mention a species the model does not tabulate
+    # ((a, b) species as declared); the file must be the same as without them
+    self.surplus = list(surplus or [])
     self.elements = list(elements)
     self.pairs = dict(pairs)
     self.fs = fs
@@ -39,6 +42,8 @@ class Model(object):
     def ps(d):
       return ",".join("%s-%s" % v if v else "(%s%s:none)" % k for k, v in sorted(d.items()))
     s = "elems=%s pairs=%s%s" % ("/".join(self.elements), ps(self.pairs), " fs" if self.fs else "")
+    if self.surplus:
+      s += " surplus-pairs=%s" % ",".join("%s-%s" % p for p in self.surplus)
     if self.dip is not None:
       s += " dip=%s quad=%s" % (ps(self.dip), ps(self.quad))
     return s
@@ -108,6 +113,8 @@ def build_objects(model, mk, meta):
     for k, st in sorted(states.items()):
       if st is not None:
         out.append(Potential(st[0], st[1], mk("%s_%s_%s" % (prefix, k[0], k[1]))))
+    for (a, b) in model.surplus:
+      out.append(Potential(a, b, mk("%sx_%s_%s" % (prefix, a, b))))
     r = model.rot % len(out) if out else 0
     return out[r:] + out[:r]
   pairpots = plist(model.pairs, "phi")
@@ -306,6 +313,8 @@ def function_names(model):
     names.append("phi_%s_%s" % k)
     names.append("u_%s_%s" % k)
     names.append("w_%s_%s" % k)
+  for (a, b) in model.surplus:
+    names.extend("%sx_%s_%s" % (pre, a, b) for pre in ("phi", "u", "w"))
   return names
 
 
